@@ -9,8 +9,9 @@
 (*     -> Node.validateSnapshotTransaction (Validate: LockGhostKeys;       *)
 (*        validateKernelSnapshot: AddNodeOperation for a pledge;           *)
 (*        lockAndPersistTransaction: LockInputs, WriteTransaction)         *)
-(*     -> Chain.AddSnapshot / Node.TopoWrite (WriteSnapshot)               *)
-(*     -> Node.reloadConsensusState (WriteConsensusSnapshot)               *)
+(*     -> Chain.AddSnapshot / Node.TopoWrite (WriteSnapshot, and for a     *)
+(*        consensus snapshot WriteConsensusSnapshot under the same lock)   *)
+(*     -> Node.reloadConsensusState (WriteConsensusSnapshot, idempotent)   *)
 (* and for the round-0 acceptance of a pledging node                       *)
 (*   Node.finalizeNodeAcceptSnapshot: StartNewRound(0), WriteSnapshot,     *)
 (*   StartNewRound(1), then reloadConsensusState.                          *)
@@ -35,7 +36,11 @@ CONSTANTS
     Head0,       \* [Chain -> Int] initial head round numbers (-1 = chain has no round yet)
     MaxCrash,    \* bound on the number of stops
     MaxTries,    \* bound on deliveries of one snapshot that end without applying it
-    Known        \* set of known-finding ids tolerated by the invariants
+    Known,       \* set of known-finding ids tolerated by the invariants
+    LockedMarker \* TRUE: the consensus record of a consensus snapshot is written inside Node.TopoWrite, under
+                 \*   the lock that covers the snapshot write (the code's design). FALSE describes the design
+                 \*   before the repair of finding C21-1 (record written after the lock was released); it is
+                 \*   only used to GENERATE behaviours that try to write a snapshot inside that window.
 
 (* kinds: "deposit", "transfer" (ordinary) ; "pledge" (consensus class, needs
    AddNodeOperation) ; "accept" (consensus class, round 0 of a new chain) ;
@@ -52,10 +57,12 @@ VARIABLES
     pc,                           \* volatile: phase reached by the running handler of each snapshot
     abort,                        \* volatile: handlers that must return without further calls
     tries,                        \* deliveries of a snapshot that returned without applying it
+    topoLock,                     \* volatile: the handler inside Node.TopoWrite between the snapshot write and
+                                  \*   the consensus record written under the same lock ("-" = free)
     complete,                     \* volatile->history: handlers that returned
     up, broken, crashes, fresh    \* process state; fresh = just restarted, nothing ran since
 
-vars == <<ghost, nodeop, lock, body, head, refsOK, topo, marker, pc, abort, tries, complete, up, broken, crashes, fresh>>
+vars == <<ghost, nodeop, lock, body, head, refsOK, topo, marker, pc, abort, tries, topoLock, complete, up, broken, crashes, fresh>>
 
 InTopo(s) == \E i \in 1..Len(topo) : topo[i] = s
 TopoSet == { topo[i] : i \in 1..Len(topo) }
@@ -63,7 +70,7 @@ TopoSet == { topo[i] : i \in 1..Len(topo) }
 ExtKnown(s) == Def[s].ext[1] = "-" \/ head[Def[s].ext[1]] > Def[s].ext[2]
 RoundEmpty(c) == ~\E x \in TopoSet : Def[x].chain = c /\ Def[x].round = head[c]
 
-(* Phases 1..9 ; a phase whose guard is false is skipped (no call is made).   *)
+(* Phases 1..11 ; a phase whose guard is false is skipped (no call is made).  *)
 PhaseName(s, p) ==
     IF Def[s].kind = "accept"
     THEN CASE p = 1 -> "-"
@@ -73,9 +80,10 @@ PhaseName(s, p) ==
            [] p = 5 -> "WriteTransaction"
            [] p = 6 -> "StartNewRound"          \* round 0 of the new chain
            [] p = 7 -> "WriteSnapshot"
-           [] p = 8 -> "StartNewRound"          \* round 1
-           [] p = 9 -> "WriteConsensusSnapshot"
-           [] p = 10 -> "Return"
+           [] p = 8 -> "WriteConsensusSnapshot" \* inside the topology lock (Node.TopoWrite)
+           [] p = 9 -> "StartNewRound"          \* round 1
+           [] p = 10 -> "WriteConsensusSnapshot" \* repeated by reloadConsensusState (idempotent)
+           [] p = 11 -> "Return"
     ELSE CASE p = 1 -> "StartNewRound"
            [] p = 2 -> "LockGhostKeys"
            [] p = 3 -> "AddNodeOperation"
@@ -85,9 +93,10 @@ PhaseName(s, p) ==
            [] p = 5 -> "WriteTransaction"
            [] p = 6 -> "UpdateEmptyHeadRound"
            [] p = 7 -> "WriteSnapshot"
-           [] p = 8 -> "-"
-           [] p = 9 -> "WriteConsensusSnapshot"
-           [] p = 10 -> "Return"
+           [] p = 8 -> "WriteConsensusSnapshot" \* inside the topology lock (Node.TopoWrite)
+           [] p = 9 -> "-"
+           [] p = 10 -> "WriteConsensusSnapshot" \* repeated by reloadConsensusState (idempotent)
+           [] p = 11 -> "Return"
 
 (* wrote[s]: this run of the handler executed WriteSnapshot (m.finalized / the
    accept path reached its end); the marker is only written in that case.     *)
@@ -101,10 +110,11 @@ Guard(s, p, wroteNow) ==
            [] p = 5 -> s \notin body
            [] p = 6 -> head[c] = -1
            [] p = 7 -> head[c] = 0 /\ ~InTopo(s)
-           [] p = 8 -> head[c] = 0 /\ InTopo(s)
-           [] p = 9 -> wroteNow
-           [] p = 10 -> TRUE
-    ELSE IF s \in abort THEN p = 10
+           [] p = 8 -> LockedMarker /\ wroteNow /\ topoLock = s
+           [] p = 9 -> head[c] = 0 /\ InTopo(s)
+           [] p = 10 -> wroteNow
+           [] p = 11 -> TRUE
+    ELSE IF s \in abort THEN p = 11
     ELSE CASE p = 1 -> Def[s].newRound /\ head[c] = Def[s].round - 1 /\ Def[s].closes \subseteq TopoSet
            [] p = 2 -> s \notin body /\ head[c] = Def[s].round
            [] p = 3 -> Def[s].kind = "pledge" /\ ~InTopo(s) /\ head[c] = Def[s].round
@@ -112,9 +122,10 @@ Guard(s, p, wroteNow) ==
            [] p = 5 -> s \notin body /\ head[c] = Def[s].round
            [] p = 6 -> head[c] = Def[s].round /\ ~refsOK[c] /\ ExtKnown(s) /\ RoundEmpty(c) /\ ~InTopo(s)
            [] p = 7 -> ~InTopo(s) /\ head[c] = Def[s].round /\ refsOK[c]
-           [] p = 8 -> FALSE
-           [] p = 9 -> Consensus(s) /\ wroteNow
-           [] p = 10 -> TRUE
+           [] p = 8 -> LockedMarker /\ Consensus(s) /\ wroteNow /\ topoLock = s
+           [] p = 9 -> FALSE
+           [] p = 10 -> Consensus(s) /\ wroteNow
+           [] p = 11 -> TRUE
 
 (* the handler of s wrote its snapshot in THIS run iff it passed phase 7 with
    the guard true; we remember it in pc by using phase numbers >= 7 together
@@ -127,7 +138,7 @@ allvars == <<vars, startedInTopo>>
 WroteNow(s) == InTopo(s) /\ s \notin startedInTopo
 
 NextPhase(s) ==
-    LET cands == { p \in (pc[s] + 1)..10 : Guard(s, p, WroteNow(s)) }
+    LET cands == { p \in (pc[s] + 1)..11 : Guard(s, p, WroteNow(s)) }
     IN  IF cands = {} THEN 0 ELSE CHOOSE p \in cands : \A q \in cands : p <= q
 
 NextCall(s) == IF NextPhase(s) = 0 THEN "-" ELSE PhaseName(s, NextPhase(s))
@@ -139,12 +150,12 @@ Init ==
     /\ marker = "G"
     /\ refsOK = [c \in Chain |-> TRUE]
     /\ pc = [s \in Snap |-> 0]
-    /\ abort = {} /\ tries = [s \in Snap |-> 0]
+    /\ abort = {} /\ tries = [s \in Snap |-> 0] /\ topoLock = "-"
     /\ complete = {}
     /\ up = TRUE /\ broken = FALSE /\ crashes = 0 /\ fresh = FALSE
     /\ startedInTopo = {}
 
-Running(s) == pc[s] > 0 /\ pc[s] < 10
+Running(s) == pc[s] > 0 /\ pc[s] < 11
 
 (* one chain goroutine handles one snapshot at a time; a snapshot is only
    delivered after the snapshots it depends on have been handled completely  *)
@@ -158,6 +169,9 @@ CanRun(s) ==
 Step(s) ==
     /\ CanRun(s)
     /\ NextPhase(s) # 0
+    \* Node.TopoWrite: a handler about to write its snapshot waits while another one is between its
+    \* snapshot write and its consensus record
+    /\ (NextPhase(s) = 7 => topoLock = "-")
     /\ LET p == NextPhase(s)
            n == PhaseName(s, p)
            c == Def[s].chain
@@ -180,6 +194,9 @@ Step(s) ==
                         [] OTHER -> abort
         /\ tries'  = IF n = "Return" /\ ~InTopo(s) THEN [tries EXCEPT ![s] = @ + 1] ELSE tries
         /\ topo'   = IF n = "WriteSnapshot" THEN Append(topo, s) ELSE topo
+        /\ topoLock' = CASE n = "WriteSnapshot" /\ Consensus(s) /\ LockedMarker -> s
+                          [] p = 8 -> "-"
+                          [] OTHER -> topoLock
         /\ marker' = IF n = "WriteConsensusSnapshot" THEN s ELSE marker
         /\ complete' = IF n = "Return" /\ InTopo(s) THEN complete \cup {s} ELSE complete
         /\ fresh' = FALSE
@@ -189,7 +206,7 @@ Crash ==
     /\ up /\ crashes < MaxCrash
     /\ up' = FALSE /\ crashes' = crashes + 1
     /\ pc' = [s \in Snap |-> IF s \in complete THEN pc[s] ELSE 0]
-    /\ abort' = {}
+    /\ abort' = {} /\ topoLock' = "-"
     /\ fresh' = FALSE
     /\ startedInTopo' = { s \in Snap : InTopo(s) }   \* every later run starts from this topology
     /\ UNCHANGED <<ghost, nodeop, lock, body, head, refsOK, topo, marker, tries, complete, broken>>
@@ -202,7 +219,7 @@ Restart ==
     /\ up' = TRUE /\ fresh' = TRUE
     /\ marker' = IF Len(topo) > 0 /\ Consensus(topo[Len(topo)]) THEN topo[Len(topo)] ELSE marker
     /\ broken' = \E c \in Chain : head[c] = 0
-    /\ UNCHANGED <<ghost, nodeop, lock, body, head, refsOK, topo, pc, abort, tries, complete, crashes, startedInTopo>>
+    /\ UNCHANGED <<ghost, nodeop, lock, body, head, refsOK, topo, pc, abort, tries, topoLock, complete, crashes, startedInTopo>>
 
 Next == (\E s \in Snap : Step(s)) \/ Crash \/ Restart
 
